@@ -28,6 +28,12 @@ def shape(v):
     return 1, 1
 
 
+def has_blank(v):
+    if v['k'] == 'a':
+        return any(e['k'] == 'z' for row in v['rows'] for e in row)
+    return v['k'] == 'z'
+
+
 def lit(v):
     if v['k'] == 'a':
         return '{%s}' % ';'.join(','.join(V.lit(e) for e in row) for row in v['rows'])
@@ -60,12 +66,16 @@ def routes(o):
     oshape = shape(out)
     rs = []
     if kind in ('+', '&', '=', '*'):
-        f = '=%s%s%s' % (lit(x), kind, lit(y))
-        rs.append(('literal', f, lambda f=f: eval_range(oshape, f)))
+        if not (has_blank(x) or has_blank(y)):      # an array literal cannot hold a blank
+            f = '=%s%s%s' % (lit(x), kind, lit(y))
+            rs.append(('literal', f, lambda f=f: eval_range(oshape, f)))
         xr, yr = rect_ref(1, 1, shape(x)), rect_ref(5, 1, shape(y))
         f2 = '=%s%s%s' % (xr, kind, yr)
         rs.append(('ranges', f2, lambda f2=f2: eval_range(
             oshape, f2, {xr: pyarr(x), yr: pyarr(y)})))
+        # the lifted operator leaves the arrays it read as they were (blanks stay blank)
+        rs.append(('ranges-kept', f2, lambda f2=f2: ('kept', impl.operands_kept(
+            f2, {xr: pyarr(x), yr: pyarr(y)}))))
     elif kind == 'u-':
         f = '=-%s' % lit(x)
         rs.append(('literal', f, lambda f=f: eval_range(oshape, f)))
@@ -122,6 +132,13 @@ def _shard(obls):
         exp = o['out']
         for route, text, thunk in routes(o):
             st, val = impl.observe(thunk)
+            if st != 'raise' and isinstance(val, tuple) and val and val[0] == 'kept':
+                if val[1]:
+                    out.append((o, route, text, False,
+                                {'k': 'changed', 'repr': '; '.join('%s: %s -> %s' % c for c in val[1][:4])}))
+                continue
+            if route == 'ranges-kept':
+                continue          # the call itself failed: the 'ranges' route reports that
             if st == 'raise':
                 obs = {'k': 'raise', 'repr': val}
                 ok = False
@@ -179,6 +196,12 @@ def main():
     for o, route, text, ok, obs in results:
         rep.count()
         rep.distinct((o['kind'], V.show(o['x']), V.show(o['y']), str(o['dst'])))
+        if not ok and obs.get('k') == 'changed':
+            rep.violation({'kind': 'operand-changed', 'op': o['kind'], 'x': V.show(o['x']), 'y': V.show(o['y'])},
+                          {'kind': o['kind'], 'spelling': text, 'route': route, 'changed': obs['repr'],
+                           'how': 'the compiled formula called on Ranges holding the arrays; the Ranges are '
+                                  'read again afterwards (the lifted step leaves its operands unchanged)'})
+            continue
         if not ok:
             cat = categorize(o, obs, route)
             got = V.show(obs) if obs['k'] != 'raise' else 'raise:' + obs['repr'].split(':')[0]
